@@ -355,7 +355,7 @@ def corpus_cases():
     return decls, cs
 
 def run(ctx):
-    ctx.level = "translation_validation"
+    ctx.level = "proof"
     ok, out = coq.check_props(ctx, "C14", extra_targets=["C14/Judge.vo"])
     if not ok:
         ctx.log(out[-3000:])
